@@ -95,6 +95,14 @@ func (i *Instructions) Normalize(normalizers tax.Normalizers) {
 	normalizers.Each(i)
 }
 
+// Validate ensures the branch address of the credit transfer details
+// looks correct.
+func (ct *CreditTransfer) Validate() error {
+	return validation.ValidateStruct(ct,
+		validation.Field(&ct.Branch),
+	)
+}
+
 // Validate ensures the Online method details look correct.
 func (u *Online) Validate() error {
 	return validation.ValidateStruct(u,
